@@ -44,6 +44,12 @@ def _mdp_cases(tier):
     )
 
 
+def large_cases(tier):
+    from vpm.gen.mdp import large_mdp_specs
+    return st.one_of(large_mdp_specs("average", min_states=8, max_states=24, max_actions=2, max_out=2),
+                     large_mdp_specs("discounted", min_states=8, max_states=30, max_actions=3, max_out=3, gammas=[0.5, 0.9, 0.95]))
+
+
 def prop_mpi(spec, ctx):
     from msdm.algorithms.multichainpolicyiteration import MultichainPolicyIteration
     mdp, view = build_mdp(spec)
@@ -106,8 +112,11 @@ def prop_mpi(spec, ctx):
         ctx.event("discounted")
         ctx.nontrivial(differs and len(states) >= 2)
         return
-    g_enum, max_classes = optimal_gain_enumeration(ref)
     g_lp = optimal_gain_lp(ref)
+    if spec.get("large"):
+        g_enum, max_classes = g_lp, 2       # (tens of states: the linear program alone; no enumeration cross-check)
+    else:
+        g_enum, max_classes = optimal_gain_enumeration(ref)
     scale = 1 + float(np.max(np.abs(g_enum)))
     if np.max(np.abs(g_enum - g_lp)) > 1e-6 * scale:
         raise HarnessError(f"gain references disagree: enumeration {g_enum} LP {g_lp}")
@@ -153,5 +162,7 @@ def prop_reuse(case, ctx):
 
 PROPS = [Prop("reuse", lambda tier: reuse_cases(tier), prop_reuse, quick=200, thorough=12000,
               doc="a MultichainPolicyIteration object reused on a second MDP gives the same result as a fresh one"),
+         Prop("mpi_large", large_cases, prop_mpi, quick=100, thorough=6000,
+              doc="the same on MDPs with 8-30 states (gain reference: the multichain linear program)"),
          Prop("mpi", cases, prop_mpi, quick=5000, thorough=180000,
               doc="MultichainPolicyIteration vs discounted V* / optimal gain (LP and enumeration)")]
